@@ -17,6 +17,7 @@ import (
 	"crypto/x509"
 	"crypto/x509/pkix"
 	"encoding/json"
+	"errors"
 	"encoding/pem"
 	"fmt"
 	"io"
@@ -30,6 +31,7 @@ import (
 	"regexp"
 	"sort"
 	"strings"
+	"syscall"
 	"time"
 
 	"github.com/inbucket/inbucket/v3/pkg/config"
@@ -206,6 +208,15 @@ func (a *AsmSys) SMTP(stream []byte) ([]byte, error) {
 	conn.SetReadDeadline(time.Now().Add(60 * time.Second))
 	out, rerr := io.ReadAll(conn)
 	conn.Close()
+	// The server said goodbye (221) and closed while this client was still writing pipelined bytes: the kernel answers
+	// the unread data with a reset, which the client sees as a read error AFTER the complete reply stream. That is the
+	// transport, not the session (a false alarm of the thorough tier, C06 `asmr`: "QU\u0131T" + 4 KB of body).
+	if rerr != nil && errors.Is(rerr, syscall.ECONNRESET) {
+		lines := bytes.Split(bytes.TrimSuffix(out, []byte("\r\n")), []byte("\r\n"))
+		if n := len(lines); n > 0 && bytes.HasPrefix(lines[n-1], []byte("221")) {
+			rerr = nil
+		}
+	}
 	return out, rerr
 }
 
